@@ -1036,6 +1036,41 @@ fn gen_c10(tier: &Tier, rng: &mut Rng, _w: usize, nw: usize, out: &mut Vec<Case>
             );
         }
     }
+    // sources that report the end of input between two files and deliver more later (a non-fused iterator, an
+    // `io::Read` returning `Ok(0)`): `next` / `next_nb` say `None` once and then go on with the next file
+    for _ in 0..(if tier.thorough { 30_000 } else { 4_000 }) / nw {
+        let k = rng.range(2, 4);
+        let mut events: Vec<String> = Vec::new();
+        let mut want: Vec<String> = Vec::new();
+        let mut cs = String::new();
+        for i in 0..k {
+            let f = gfile(rng, 2, 3);
+            let plain = rng.chance(1, 3);
+            let x = encode_file(rng, &f, plain);
+            if i > 0 && rng.chance(2, 3) {
+                events.push("E".to_string());
+                cs.push(*rng.pick(&['n', 'N']));
+                cs.push(*rng.pick(&['b', 'f', 'p']));
+                want.push("none".to_string());
+            }
+            events.push(tok(&spec::frame(&x)));
+            let t = *rng.pick(&['b', 'f', 'p']);
+            cs.push(*rng.pick(&['n', 'N']));
+            cs.push(t);
+            want.push(match t {
+                'b' => format!("bytes:{}", hex(&x)),
+                'f' => format!("file:{}", show_gfile(&f)),
+                _ => format!("events:[{}]", show_gevents(&f).join(";")),
+            });
+        }
+        for _ in 0..3 {
+            cs.push(*rng.pick(&['n', 'N']));
+            cs.push('b');
+            want.push("none".to_string());
+        }
+        let kind = if rng.chance(1, 2) { "mem" } else { "io" };
+        out.push(Case::new("e2e-resume", vec![format!("sml {} {} {} {}", kind, *rng.pick(&["inf", "8192"]), cs, events.join(" "))]).with_aux(vec![want.join(" ")]));
+    }
     let n = if tier.thorough { 200_000 } else { 24_000 } / nw;
     for _ in 0..n {
         let k = rng.range(1, 4);
